@@ -3,6 +3,7 @@ conformance traces (driver + trace specification) decide each property."""
 import random
 from core import MC, Shard
 import drv_calendar
+import drv_computus
 
 YMIN, YMAX = -4712, 6000
 
@@ -35,6 +36,8 @@ def _cal_mc(windows):
 
 
 def _nt_day(ev):
+    if ev["k"] == "sid":
+        return ev["x"]
     # non-trivial days: month edges, leap days, Jan/Feb of century years, October 1582
     y, m, d = ev["y"], ev["m"], ev["d"]
     if d == 1 or d >= 28 or (y % 100 == 0 and m <= 3) or (y == 1582 and m == 10):
@@ -64,18 +67,77 @@ def plan_C01(tier, seed):
 
 def plan_C16(tier, seed):
     w = _year_windows(tier, seed)
+    nsid = 16
+    per = 400 if tier == "quick" else 6500
     return dict(
         mc=_cal_mc(w),
         shards=[Shard("c16_%+05d_%+05d" % (a, b), drv_calendar.gen_c16, dict(y0=a, y1=b),
-                      "Trace_Calendar", "Trace.cfg") for (a, b) in w],
+                      "Trace_Calendar", "Trace.cfg") for (a, b) in w]
+               + [Shard("sid_%02d" % i, drv_calendar.gen_sidereal, dict(seed=seed, n=per, shard=i, nshards=nsid),
+                        "Trace_Sidereal", "Trace.cfg") for i in range(nsid)],
         level="model_checking", exhaustive=(tier == "thorough"),
         nontrivial=_nt_day,
         rule="calendar chain as for C01 (dow, doy counters, Gregorian weekday formula, year length "
              "invariants model-checked); per civil day the driver logs dow() at 0h/12h/23:59:59, doy(), "
              "get_doy, doy2date, leap(), year() at three instants; Trace_Calendar compares with the chain "
              "and checks the fractional year is strictly increasing with integer part = year. "
-             "Non-trivial days as for C01.",
+             "Non-trivial days as for C01. Sidereal time: JDE in [0, 5.4e6] at day/half-day boundaries with "
+             "+-1,2 ulp, +-1 us, +-1 s offsets plus uniform random; Trace_Sidereal evaluates the IAU-1982 "
+             "polynomial in exact fixed point and compares (1e-7 day), checks the daily advance and the "
+             "equation of the equinoxes identity (each distinct JDE is a case).",
         assumptions=["31 December 1582 has day-of-year 355 (JDE difference to 1 January plus one)"])
 
 
-PLANS = {"C01": plan_C01, "C16": plan_C16}
+def _split(a, b, n):
+    span = b - a + 1
+    return [(a + (span * i) // n, a + (span * (i + 1)) // n - 1) for i in range(n)]
+
+
+def _nt_c19(ev):
+    k = ev["k"]
+    if k in ("easter", "pesach"):
+        return (k, ev["y"])
+    if k == "m2g":     # month edges and year edges of the Moslem calendar
+        return (k, ev["hy"], ev["hm"], ev["hd"]) if ev["hd"] in (1, 29, 30) else None
+    return (k, ev["y"], ev["m"], ev["d"]) if (ev["d"] == 1 or ev["d"] >= 28) else None
+
+
+def plan_C19(tier, seed):
+    rng = random.Random(seed)
+    mc = [MC("MC_Computus", "MC_Computus.cfg", workers=4, heap="2g",
+             env={"CMP_MODE": "easter", "CMP_Y0": "288", "CMP_Y1": "15000"}, note="Easter, every year -4712..10000"),
+          MC("MC_Computus", "MC_Computus.cfg", workers=4, heap="2g",
+             env={"CMP_MODE": "hebrew", "CMP_Y0": "1", "CMP_Y1": "3000"}, note="Hebrew calendar, civil years 1..3000")]
+    mc += [MC("MC_Computus", "MC_Computus.cfg", workers=1, heap="2g",
+              env={"CMP_MODE": "islamic", "CMP_Y0": str(a), "CMP_Y1": str(b)}, note="Islamic day chain AH %d..%d" % (a, b))
+           for (a, b) in _split(1, 2500, 12)]
+    T = ("Trace_Computus", "Trace.cfg")
+    sh = [Shard("easter_a", drv_computus.gen_easter, dict(y0=-4712, y1=2600), *T),
+          Shard("easter_b", drv_computus.gen_easter, dict(y0=2601, y1=10000), *T),
+          Shard("pesach", drv_computus.gen_pesach, dict(y0=1, y1=3000), *T)]
+    if tier == "thorough":
+        hw = _split(1, 2500, 24)
+        cw = [(622, 700)] + _split(701, 3000, 23)
+    else:
+        hw = [(1, 60), (540, 560), (780, 800), (960, 1020), (1100, 1130), (1300, 1360), (1400, 1460), (2460, 2500)]
+        cw = [(622, 680), (1480, 1530), (1560, 1620), (1690, 1710), (1890, 1920), (1990, 2040), (2960, 3000)]
+        for _ in range(3):
+            a = rng.randrange(61, 2400)
+            hw.append((a, a + 29))
+            a = rng.randrange(700, 2900)
+            cw.append((a, a + 29))
+    sh += [Shard("m2g_%04d_%04d" % (a, b), drv_computus.gen_m2g, dict(h0=a, h1=b), *T) for (a, b) in hw]
+    sh += [Shard("g2m_%04d_%04d" % (a, b), drv_computus.gen_g2m, dict(y0=a, y1=b), *T) for (a, b) in cw]
+    return dict(
+        mc=mc, shards=sh, level="model_checking", exhaustive=(tier == "thorough"), nontrivial=_nt_c19,
+        rule="TLC checks the tabular-epact Easter definition against the Meeus recipe for every year -4712..10000, the "
+             "arithmetic Hebrew calendar laws for civil years 1..3000 and the Islamic day chain AH 1..2500 against its closed "
+             "forms (with published anchors). Conformance: Epoch.easter for every year -4712..10000 and jewish_pesach for "
+             "1..3000 (always exhaustive); moslem2gregorian for every date of the AH windows and gregorian2moslem for every "
+             "civil day of the year windows (thorough: AH 1..2500 and 622-07-16..3000 completely), each judged by "
+             "Trace_Computus against the chains. Non-trivial: each Easter/Pesach year; month/year edges of both calendars.",
+        assumptions=["Islamic leap years are 2,5,7,10,13,16,18,21,24,26,29 of the 30-year cycle (the variant Meeus uses), epoch JDN 1948440",
+                     "known/C19_g2m_inputs.json lists the exact civil dates on which gregorian2moslem is known to fail (see KNOWN_FINDINGS.txt)"])
+
+
+PLANS = {"C01": plan_C01, "C16": plan_C16, "C19": plan_C19}
